@@ -21,6 +21,7 @@ import (
 	"fmt"
 	"github.com/echovault/sugardb/internal"
 	"github.com/echovault/sugardb/internal/clock"
+	"github.com/echovault/sugardb/verifhook"
 	"io"
 	"io/fs"
 	"log"
@@ -143,6 +144,7 @@ func NewSnapshotEngine(options ...func(engine *Engine)) *Engine {
 			}()
 			for {
 				<-ticker.C
+				verifhook.Yield("snapshot.tick")
 				if engine.changeCount.Load() == engine.snapshotThreshold {
 					if err := engine.TakeSnapshot(); err != nil {
 						log.Println(err)
@@ -241,6 +243,9 @@ func (engine *Engine) TakeSnapshot() error {
 		return err
 	}
 
+	if err := verifhook.Fault("snap.manifest.create"); err != nil {
+		return err
+	}
 	// os.Create will replace the old manifest file
 	mf, err = os.Create(path.Join(dirname, "manifest.bin"))
 	if err != nil {
@@ -253,29 +258,45 @@ func (engine *Engine) TakeSnapshot() error {
 		LatestSnapshotHash:         md5.Sum(out),
 		LatestSnapshotMilliseconds: msec,
 	}
+	verifhook.FSEvent("create", path.Join(dirname, "manifest.bin"), nil)
 	mo, err := json.Marshal(manifest)
 	if err != nil {
 		log.Println(err)
+		return err
+	}
+	if err := verifhook.Fault("snap.manifest.write"); err != nil {
 		return err
 	}
 	if _, err = mf.Write(mo); err != nil {
 		log.Println(err)
 		return err
 	}
+	verifhook.FSEvent("write", path.Join(dirname, "manifest.bin"), mo)
+	if err := verifhook.Fault("snap.manifest.sync"); err != nil {
+		return err
+	}
 	if err = mf.Sync(); err != nil {
 		log.Println(err)
 	}
+	verifhook.FSEvent("sync", path.Join(dirname, "manifest.bin"), nil)
 	if err = mf.Close(); err != nil {
 		log.Println(err)
 		return err
 	}
 
+	if err := verifhook.Fault("snap.dir.mkdir"); err != nil {
+		return err
+	}
 	// Create snapshot directory
 	dirname = path.Join(engine.directory, "snapshots", fmt.Sprintf("%d", msec))
 	if err := os.MkdirAll(dirname, os.ModePerm); err != nil {
 		return err
 	}
 
+	verifhook.FSEvent("mkdir", dirname, nil)
+	if err := verifhook.Fault("snap.state.create"); err != nil {
+		return err
+	}
 	// Create snapshot file
 	f, err := os.OpenFile(path.Join(dirname, "state.bin"), os.O_WRONLY|os.O_CREATE, os.ModePerm)
 	if err != nil {
@@ -288,19 +309,32 @@ func (engine *Engine) TakeSnapshot() error {
 		}
 	}()
 
+	verifhook.FSEvent("create", path.Join(dirname, "state.bin"), nil)
+	if err := verifhook.Fault("snap.state.write"); err != nil {
+		return err
+	}
 	// Write state to file
 	if _, err = f.Write(out); err != nil {
+		return err
+	}
+	verifhook.FSEvent("write", path.Join(dirname, "state.bin"), out)
+	if err := verifhook.Fault("snap.state.sync"); err != nil {
 		return err
 	}
 	if err = f.Sync(); err != nil {
 		log.Println(err)
 	}
 
+	verifhook.FSEvent("sync", path.Join(dirname, "state.bin"), nil)
+	if err := verifhook.Fault("snap.done"); err != nil {
+		return err
+	}
 	// Set the latest snapshot in unix milliseconds
 	engine.setLatestSnapshotTimeFunc(msec)
 
 	// Reset the change count
 	engine.resetChangeCount()
+	verifhook.Note("snapshot.done")
 
 	return nil
 }
